@@ -1467,26 +1467,27 @@ func wireOrder(wc *wireCtx, r *Report, prop, dir string) {
 				r.fatal("anchor unresolved: (*PacketDslVisitorImpl).%s", name)
 				continue
 			}
+			// the visitor's own work: the method and the helpers (passes, closures) it is split into, up to the next visitor method
 			sorted := false
-			forEachInstr(fn, func(b *ssa.BasicBlock, ins ssa.Instruction) {
-				if c, ok := ins.(ssa.CallInstruction); ok && isSortCall(c) {
-					sorted = true
-				}
-			})
 			usesAll := false
-			forEachInstr(fn, func(b *ssa.BasicBlock, ins ssa.Instruction) {
-				if c, ok := ins.(*ssa.Call); ok {
-					n := ""
-					if c.Call.IsInvoke() {
-						n = c.Call.Method.Name()
-					} else if f := c.Call.StaticCallee(); f != nil {
-						n = f.Name()
+			for _, g := range visitorUnit(w, fn) {
+				forEachInstr(g, func(b *ssa.BasicBlock, ins ssa.Instruction) {
+					if c, ok := ins.(ssa.CallInstruction); ok && isSortCall(c) {
+						sorted = true
 					}
-					if n == "AllFieldDefinitionWithAttribute" || n == "AllFieldDefinition" {
-						usesAll = true
+					if c, ok := ins.(*ssa.Call); ok {
+						n := ""
+						if c.Call.IsInvoke() {
+							n = c.Call.Method.Name()
+						} else if f := c.Call.StaticCallee(); f != nil {
+							n = f.Name()
+						}
+						if n == "AllFieldDefinitionWithAttribute" || n == "AllFieldDefinition" {
+							usesAll = true
+						}
 					}
-				}
-			})
+				})
+			}
 			key := name + " appends fields in child order"
 			if usesAll && !sorted {
 				r.pass(rule, key, w.pos(fn.Pos()), "")
@@ -1495,6 +1496,71 @@ func wireOrder(wc *wireCtx, r *Report, prop, dir string) {
 			}
 		}
 	}
+}
+
+// visitorUnit: the functions that do the work of one visitor method: the method itself, its closures, and the helpers of the parser
+// package it calls directly (statically, or as a closure made in the unit), transitively - but not other methods of the visitor
+// interface the method belongs to (those do the work of their own node).
+func visitorUnit(w *World, entry *ssa.Function) []*ssa.Function {
+	// the methods of the visitor interface(s): every interface of the program that declares the entry's name and that the
+	// receiver implements
+	isEntry := map[string]bool{}
+	if entry.Signature.Recv() != nil {
+		recv := entry.Signature.Recv().Type()
+		for _, pkg := range w.Prog.AllPackages() {
+			for _, m := range pkg.Members {
+				tn, ok := m.(*ssa.Type)
+				if !ok {
+					continue
+				}
+				it, ok := tn.Type().Underlying().(*types.Interface)
+				if !ok || it.NumMethods() < 2 || !types.Implements(recv, it) {
+					continue
+				}
+				has := false
+				for i := 0; i < it.NumMethods(); i++ {
+					if it.Method(i).Name() == entry.Name() {
+						has = true
+					}
+				}
+				if !has {
+					continue
+				}
+				for i := 0; i < it.NumMethods(); i++ {
+					isEntry[it.Method(i).Name()] = true
+				}
+			}
+		}
+	}
+	seen := map[*ssa.Function]bool{}
+	var out []*ssa.Function
+	var visit func(f *ssa.Function, depth int)
+	visit = func(f *ssa.Function, depth int) {
+		if f == nil || seen[f] || f.Blocks == nil || depth > 4 {
+			return
+		}
+		seen[f] = true
+		out = append(out, f)
+		forEachInstr(f, func(_ *ssa.BasicBlock, ins ssa.Instruction) {
+			switch x := ins.(type) {
+			case *ssa.MakeClosure:
+				if g, ok := x.Fn.(*ssa.Function); ok {
+					visit(g, depth+1)
+				}
+			case ssa.CallInstruction:
+				g := x.Common().StaticCallee()
+				if g == nil || g.Pkg != entry.Pkg {
+					return
+				}
+				if g.Signature.Recv() != nil && isEntry[g.Name()] {
+					return
+				}
+				visit(g, depth+1)
+			}
+		})
+	}
+	visit(entry, 0)
+	return out
 }
 
 // fieldsLoopInOrder: fn contains `for _, f := range <packet>.Fields` (ascending index loop) whose body emits, with no sort/reverse of the slice.
